@@ -122,12 +122,12 @@ class C07(NetCheck):
     technique = "deterministic simulation: generated fiber/channel networks on the real scheduler, history checker over the recorded event sequence"
     rule = ("a case is a generated network (channels sync or capacity 1..4; 1..5 launched fibers as functions, lambdas, methods and "
             "capturing closures; straight-line scripts of send/receive/close/drain/send-after-close; patterns: random, fan-in/out, "
-            "backlog-at-close, ping-pong) x collection schedule x address policy; distinct = distinct recorded interleavings "
+            "backlog-at-close, ping-pong, count-balanced) x collection schedule x address policy; distinct = distinct recorded interleavings "
             "(sequence of (fiber, op, channel, nil?) records); non-trivial = at least one context switch happened")
     assumptions = [
         "the program's own stdout is the history: a record is printed immediately after each operation returns and the VM switches fibers only inside channel operations and on completion",
         "order clause: per (sender, channel) the values appear in global receipt order in the order they were sent (holds for any FIFO whatever the enqueue interleaving)",
-        "verdict zone: a channel is closed only by its unique sending fiber after its last send; no channel operations inside native callbacks (both are pinned known findings of C08)",
+        "verdict zone: a channel is closed only by a fiber that has itself used it before the close (sends of other fibers into it are guarded by try/catch); no channel operations inside native callbacks (pinned known findings of C08)",
     ]
 
 
